@@ -201,6 +201,22 @@ def src_facts(repo=None):
         return json.load(f)
 
 
+def item_scope(src, c):
+    """scope of a srcfacts record without its leading (inline) module segments: where in the crate an item lives is not behaviour"""
+    mods = getattr(item_scope, '_mods', None)
+    if mods is None or mods[0] is not src:
+        m = set()
+        for it in src.get('items', []):
+            if it.get('kind') == 'mod':
+                m.add((it['file'], (it['scope'] + '::' if it['scope'] else '') + it['name']))
+        mods = item_scope._mods = (src, m)
+    segs = c['scope'].split('::') if c['scope'] else []
+    i = 0
+    while i < len(segs) and (c['file'], '::'.join(segs[:i + 1])) in mods[1]:
+        i += 1
+    return '::'.join(segs[i:])
+
+
 # ----------------------------------------------------------------------------
 # tree helpers
 
@@ -321,19 +337,26 @@ class Facts:
         self.repo = repo or repo_root()
         self.dir = facts_dir(config, self.repo)
         self.renames = []
-        self._load(None)
-        ren = self._detect_renames()
-        if ren:
-            # analyse the tree under the names the rules know: every occurrence of a renamed function's path is rewritten
-            import re
-            pats = [(re.compile(re.escape(new) + r'(?![A-Za-z0-9_])'), old) for old, new in ren]
+        import re
+
+        def tr_for(ren):
+            # analyse the tree under the names the rules know: every occurrence of a renamed or moved item's path is rewritten
+            pats = [(re.compile(r'(?<![A-Za-z0-9_:])' + re.escape(new) + r'(?![A-Za-z0-9_])'), old) for old, new in ren]
 
             def tr(text):
                 for pat, old in pats:
                     text = pat.sub(old.replace('\\', '\\\\'), text)
                 return text
-            self._load(tr)
-            self.renames = ren
+            return tr
+        self._load(None)
+        moved = self._detect_moved_types()
+        if moved:
+            self._load(tr_for(moved))
+        ren = self._detect_renames()
+        if ren:
+            self._load(tr_for(moved + ren))
+        self.renames = moved + ren
+        self._finish()
 
     def _load(self, transform):
         self.crates = {}
@@ -374,6 +397,8 @@ class Facts:
         self.hidden_fns = {}
         self.inlined = {}
         self.delegates = {}
+
+    def _finish(self):
         self._expand_helpers()
         self._canonical_locals()
 
@@ -441,6 +466,44 @@ class Facts:
                     elif n.get('k') == 'path' and n.get('res') == 'Local' and n.get('path') in mapping:
                         n['path'] = mapping[n['path']]
             self.local_renames.append((d, changed))
+
+    def _detect_moved_types(self):
+        """[(old path, new path)]: a type or trait that moved to another module of its crate (same name, same members) keeps its
+        rules; so do the functions defined on it, whose paths carry the type's path as a prefix"""
+        global _ANCHOR_ALL
+        try:
+            allb = _ANCHOR_ALL
+        except NameError:
+            try:
+                allb = _ANCHOR_ALL = json.load(open(os.path.join(VERIF, 'allow', 'anchors.json')))
+            except (OSError, ValueError):
+                allb = _ANCHOR_ALL = {}
+        if self._anchor_base() is None:
+            return []
+        out = []
+        shape = lambda a: [[v['name'], [x['name'] for x in v.get('fields', [])]] for v in a.get('variants', [])]
+        for table, cur, key in ((allb.get('adts') or {}, self.adts, lambda a: shape(a)),
+                                (allb.get('traits') or {}, self.traits, lambda t: sorted(i['name'] for i in t.get('items', [])))):
+            unknown = [p for p in cur if p not in table]
+            for old, want in sorted(table.items()):
+                if old in cur or old.split('::')[0] not in self.crates:
+                    continue
+                want = want.get('members') if isinstance(want, dict) else want
+                name, crate = old.rsplit('::', 1)[1], old.split('::')[0]
+                cands = [p for p in unknown if p.rsplit('::', 1)[1] == name and p.split('::')[0] == crate]
+                if len(cands) > 1:
+                    cands = [p for p in cands if key(cur[p]) == want]
+                if len(cands) == 1:
+                    out.append((old, cands[0]))
+        # constants and statics: same name, elsewhere in the crate
+        for old in sorted(allb.get('consts') or []):
+            if old in self.consts or old.split('::')[0] not in self.crates or '{' in old:
+                continue
+            name, crate = old.rsplit('::', 1)[1], old.split('::')[0]
+            cands = [p for p in self.consts if p not in allb['consts'] and p.rsplit('::', 1)[1] == name and p.split('::')[0] == crate]
+            if len(cands) == 1 and not any(old.startswith(o + '::') for o, _ in out):
+                out.append((old, cands[0]))
+        return out
 
     def _detect_renames(self):
         """[(old def path, new def path)]: a private function that was renamed or moved keeps its rules (allow/anchors.json)"""
